@@ -169,7 +169,7 @@ func init() {
 		placement := c.Choose(c16NPlacements)
 		ci := c.Choose(len(c16Chains))
 		gen := c.Choose(3)       // 0 WriteHelp after a parse selecting the chain, 1 the ErrHelp text, 2 man page
-		late := c.Choose(2) == 1 // rm is hidden and hidcmd un-hidden through their public Hidden fields after a first rendering
+		late := c.Choose(2) == 1 // rm is hidden and hidcmd un-hidden through their public Hidden fields after a first rendering (and a field's value changed)
 		given := gen == 1 && !v.onoff && !v.choices && c.Choose(2) == 1 // the help request follows an occurrence of U with a value
 		if gen == 2 && ci != 0 {
 			c.Skip() // the man page covers the whole tree whatever is active
@@ -193,6 +193,10 @@ func init() {
 			if ci != 0 || placement != c16PlParser {
 				c.Skip()
 			}
+			// during that first use the option whose default is its initial value holds another value ("J"); the program then
+			// stores "I": the default shown afterwards is what the field holds when the parse that precedes the help starts
+			first := b.Vals[cd.d.Top.Opts[0]]
+			first.SetString("J")
 			func() {
 				defer func() { recover() }()
 				var sink bytes.Buffer
@@ -200,6 +204,7 @@ func init() {
 				b.Parser.WriteHelp(&sink)
 				b.Parser.WriteManPage(&sink)
 			}()
+			first.SetString("I")
 			b.Parser.Find("rm").Hidden = true
 			b.Parser.Find("hidcmd").Hidden = false
 			c.Hit("late-hidden-toggle")
@@ -391,6 +396,10 @@ func init() {
 			}
 			if !has("HIDCDESC") {
 				c.Fail("command-unhidden-later-not-shown|"+gname, text)
+			}
+			if gen != 2 && !c16InitialRe.MatchString(text) {
+				// the field held J during the first use and holds I since: I is what the parse before this help text found
+				c.Fail("default-of-an-earlier-parse-shown|"+gname, map[string]interface{}{"text": text})
 			}
 			return
 		}
